@@ -11,7 +11,10 @@ driver module `obfs2`: the Lean obfs2 endpoint model as a reference peer (both r
         chunk); after every arrival the handshake proceeds as far as it can → <state> <queued bytes>
         state: need-seed | need-hdr | need-pad:<n> | done | fail:<class> | panic
   eof <S>                                   the read side ends while the handshake waits → <state> <queued>
+  feedlast <S> <datahex> <class>            the final chunk: ONE conn.Read returns it together with an
+        error of that class (eof, reset, …); it must fit the read buffer → ok
   read <S> <max>                            one Read with a buffer of max bytes → ok <plainhex> | block
+        | okerr <plainhex> <class> (bytes returned together with the error) | fail <class>
   write <S> <datahex>                       one Write → ok <wirehex>
   info <S>                                  → <state> <queued> <alloc> <rxoff> <txoff>
   del <S>
@@ -22,6 +25,10 @@ open O4 O4.SC O4.Obfs2
 structure Sess where
   c : Conn
   net : Net
+  /-- final chunk that the conn hands out together with an error (class name) -/
+  last : Option (Bytes × String) := none
+  /-- the error class every later read reports -/
+  ended : Option String := none
 
 abbrev St := List (String × Sess)
 
@@ -53,7 +60,7 @@ def P : Prims := Prims.real
 
 def startReply (st : St) (name : String) (r : Except Stop (Conn × List Bytes)) (extra : String) : St × String :=
   match r with
-  | .ok (c, [w1, w2]) => (st.set name ⟨c, []⟩, s!"ok {hex w1} {hex w2}{extra}")
+  | .ok (c, [w1, w2]) => (st.set name { c := c, net := [] }, s!"ok {hex w1} {hex w2}{extra}")
   | .ok _ => (st, "bad-op")
   | .error (.fail e) => (st, "fail " ++ errName e)
   | .error .panic => (st, "panic")
@@ -80,13 +87,13 @@ def step (st : St) : List String → St × String
     match st.get? name, unhex? data, sizes.mapM String.toNat? with
     | some s, some d, some ns =>
       let (c, net) := feedAll P s.c s.net (splitAt d ns)
-      let s' : Sess := ⟨c, net⟩
+      let s' : Sess := { s with c := c, net := net }
       (st.set name s', stateLine s')
     | _, _, _ => (st, "bad-op")
   | ["eof", name] =>
     match st.get? name with
     | some s =>
-      let s' : Sess := ⟨eof s.c, s.net⟩
+      let s' : Sess := { s with c := eof s.c }
       (st.set name s', stateLine s')
     | none => (st, "bad-op")
   | ["read", name, max] =>
@@ -94,15 +101,28 @@ def step (st : St) : List String → St × String
     | some s, some m =>
       if s.c.phase != .done || m == 0 then (st, "bad-state") else
       match read P s.c m s.net with
-      | none => (st, "block")
-      | some (c, plain, net) => (st.set name ⟨c, net⟩, "ok " ++ hex plain)
+      | some (c, plain, net) => (st.set name { s with c := c, net := net }, "ok " ++ hex plain)
+      | none =>
+        match s.last, s.ended with
+        | some (ch, cls), _ =>
+          if ch.length > m then (st, "bad-op") else
+          let (c, plain) := readLast P s.c ch
+          (st.set name { s with c := c, last := none, ended := some cls }, s!"okerr {hex plain} {cls}")
+        | none, some cls => (st, "fail " ++ cls)
+        | none, none => (st, "block")
+    | _, _ => (st, "bad-op")
+  | ["feedlast", name, data, cls] =>
+    match st.get? name, unhex? data with
+    | some s, some d =>
+      if d.isEmpty then (st.set name { s with ended := some cls }, "ok")
+      else (st.set name { s with last := some (d, cls) }, "ok")
     | _, _ => (st, "bad-op")
   | ["write", name, data] =>
     match st.get? name, unhex? data with
     | some s, some d =>
       if s.c.phase != .done then (st, "bad-state") else
       let (c, wire) := write P s.c d
-      (st.set name ⟨c, s.net⟩, "ok " ++ hex wire)
+      (st.set name { s with c := c }, "ok " ++ hex wire)
     | _, _ => (st, "bad-op")
   | ["info", name] =>
     match st.get? name with
